@@ -19,11 +19,13 @@ pub struct Ctx {
     pub wd: Watchdog,
     pub start: std::time::Instant,
     pub args: Vec<String>,
+    /// set while the companion workloads (other properties' quick-tier workloads) run
+    pub lite: std::sync::atomic::AtomicBool,
 }
 
 impl Ctx {
     pub fn thorough(&self) -> bool {
-        self.tier == "thorough"
+        self.tier == "thorough" && !self.lite.load(std::sync::atomic::Ordering::Relaxed)
     }
     /// pick by tier
     pub fn q<T>(&self, quick: T, thorough: T) -> T {
